@@ -44,7 +44,8 @@ From Coq Require Import QArith.
 From TM Require Import Sched.Vec Sched.Types Sched.Queue Sched.Tree Sched.Cycle Sched.Events.
 From TM Require Import Sched.MapsP Sched.InvAcct Sched.InvAff.
 From TM Require Import Master.Publish Master.PublishP Master.Restore Master.RestoreP Master.RestoreSched Master.RestoreSchedP.
-From TM Require Import Master.RestoreAll Master.RestoreAllP Master.RestoreDupP.
+From TM Require Import Master.RestoreAll Master.RestoreAllP Master.RestoreDupP Master.RestoreBridge.
+From TM Require Import Sched.InvIdent Sched.TurnP Sched.KeepP Sched.Reach.
 From TM Require Import Base.ShapeCanon.
 Import ListNotations.
 Open Scope Z_scope.
@@ -353,6 +354,45 @@ Example C11_duplicate_on_data :
   c_servers cf = c_servers cf' /\ c_buckets cf = c_buckets cf' /\ ws' = [] /\
   ax_view cf 1 = ax_view cf' 1 /\ ax_view cf 3 = ax_view cf' 3.
 Proof. exact ax_duplicate_on_data. Qed.
+
+(** ** the restore in terms of the scheduler's operation alphabet (Master/RestoreBridge.v)
+    For a store that records no instance under two servers, the first loop of restore_placements is a run of
+    [ORestore] operations (one per placement node, in listing order); the rebuilt cell is therefore a reachable state
+    of the scheduler model when the cell before the restore is, and everything proved of a cycle run from a reachable
+    state holds of the first cycle after a fail-over.  The side conditions [wf_ops_all] are the loader's call-site
+    facts: the server is attached, the instance is on no server when its node's turn comes, a recorded identity is
+    held by no other instance of the group, and a group instance has or is given an identity. *)
+Theorem C11_restore_is_a_run : forall ri servers c,
+  Good c -> wf_ops_all c (ops_of_store ri servers) ->
+  fst (restore_all ri c servers) = run c (ops_of_store ri servers).
+Proof. exact restore_all_is_run. Qed.
+Print Assumptions C11_restore_is_a_run.
+
+Theorem C11_rebuilt_cell_reachable : forall ri servers c,
+  reachable c -> wf_ops_all c (ops_of_store ri servers) -> reachable (fst (restore_all ri c servers)).
+Proof. exact restore_all_reachable. Qed.
+Print Assumptions C11_rebuilt_cell_reachable.
+
+Theorem C11_first_cycle_after_failover : forall ri servers c ch,
+  reachable c -> wf_ops_all c (ops_of_store ri servers) ->
+  let c1 := fst (restore_all ri c servers) in
+  forall x a', app_of (step c1 (OSchedule ch)) x = Some a' ->
+    (a_server a' = None -> no_id a') /\ (a_server a' <> None -> has_id a') /\
+    (forall g i k, holds a' g i -> gcount (step c1 (OSchedule ch)) g = Some k -> 0 <= i < k).
+Proof.
+  intros ri servers c ch HR Hwf c1. apply end_of_cycle_identities. apply reachable_Good.
+  apply restore_all_reachable; assumption.
+Qed.
+Print Assumptions C11_first_cycle_after_failover.
+
+Example C11_bridge_nonvacuous :
+  let store := [mkSR 1000 (Some 5) [mkSN 1 (Some 2) 777 9; mkSN 2 None 888 9]] in
+  wf_ops_allb (init_cell 3 2000 1)
+    ([OAddServer 1000 2000 [150; 150; 150] 4000 0 100000; OConfigGroup 5000 3; OAddApp 4000 [] (sx_app 1 (Some 5000));
+      OAddApp 4000 [] (sx_app 2 None); OTick 50] ++ ops_of_store true store) = true /\
+  sx_view (fst (restore_all true sx_cell store)) 1 = Some (Some 1000, Some 777, Some 2) /\
+  sx_view (run sx_cell (ops_of_store true store)) 1 = Some (Some 1000, Some 777, Some 2).
+Proof. vm_compute. repeat split. Qed.
 
 (** the functions named by this property's anchors still have the statement skeleton the model was written from
     (re-extracted from the Python AST on every run, harness/tables_shape.py + harness/shape_pins.json; kept last so that
